@@ -41,7 +41,8 @@ func runC07(c *eng.Ctx, thorough bool) {
 		if !c.Floor(f, "ts.create", len(create), 1) {
 			return
 		}
-		sudo := eng.G(f, `^<vault\.extendedSystemView>\.SudoPrivilege\(\)$`, true)
+		// the sudo answer: a call of extendedSystemView.SudoPrivilege, possibly through a local closure that only forwards it
+		sudo := eng.Guard{Desc: "[SudoPrivilege()]=true", Edges: c07gFwdCondEdges(f, c07gIsSudoCall, true)}
 		parent := `vault\.\(\*TokenStore\)\.Lookup\(\)#0`
 		// ---- C07.1
 		c.Clause("R2", "C07.1")
@@ -88,27 +89,29 @@ func runC07(c *eng.Ctx, thorough bool) {
 		teRoot := eng.GD(f, `^slices\.Contains\[.*\]\(&te\.Policies, "root"\)$`, false)
 		parentRoot := eng.GD(f, `^slices\.Contains\[.*\]\(vault\.\(\*TokenStore\)\.Lookup\(.*\)#0\.Policies, "root"\)$`, true)
 		rootIfs := eng.EdgeIfs(eng.CondEdgesDeep(f, `^slices\.Contains\[.*\]\(&te\.Policies, "root"\)$`, true))
-		c.Cut(f, "ts.create", create, eng.Or(teRoot, parentRoot), nil)
-		c.Cut(f, "ts.create", create, eng.Or(teRoot, eng.G(f, `^&te\.Type == `+batch+`$`, false)), nil)
-		c.Clause("R3", "C07.4")
 		polSt := instrsOf(eng.Stores(f, `^&te\.Policies$`))
 		c.Floor(f, "te.Policies store", len(polSt), 1)
-		// the root check that guards create must come after every policy store: no store after the first such If
-		guardIf := eng.EdgeIfs(eng.Nearest(f, eng.CondEdgesDeep(f, `^slices\.Contains\[.*\]\(&te\.Policies, "root"\)$`, true), nil))
-		_ = guardIf
-		if len(rootIfs) > 0 {
-			// take the earliest root test that dominates create: all of them must precede no policy store
-			var first []ssa.Instruction
-			for _, i := range rootIfs {
-				if dominatedInstr(f, i, create) {
-					first = append(first, i)
-				}
+		// the root tests that lie on every path to ts.create (the later test in the TTL computation does not)
+		var first []ssa.Instruction
+		for _, i := range rootIfs {
+			if dominatedInstr(f, i, create) {
+				first = append(first, i)
 			}
-			if len(first) == 0 {
-				c.Violation(f, "root test dominating ts.create", f.Pos(), "no test of te.Policies containing \"root\" lies on every path to ts.create", nil)
-			} else {
-				c.NotAfter(f, "the root-policy check", first, "store to te.Policies", polSt)
+		}
+		if len(first) == 0 {
+			// no dominating test of te.Policies containing "root" in this function: extracted into a helper?
+			if !c07gRootGuardInHelper(c, f, create, polSt, batch) {
+				c.Undecided(f, "root guard", f.Pos(), "no test of te.Policies containing \"root\" on every path to ts.create in handleCreateCommon, nor in a same-package function it hands &te and the parent to: moved? the rule cannot be evaluated")
 			}
+		} else {
+			c.Cut(f, "ts.create", create, eng.Or(teRoot, parentRoot), nil)
+			c.Cut(f, "ts.create", create, eng.Or(teRoot, eng.G(f, `^&te\.Type == `+batch+`$`, false)), nil)
+			c.Clause("R3", "C07.4")
+			// the root check that guards create must come after every policy store: no store after the first such If
+			guardIf := eng.EdgeIfs(eng.Nearest(f, eng.CondEdgesDeep(f, `^slices\.Contains\[.*\]\(&te\.Policies, "root"\)$`, true), nil))
+			_ = guardIf
+			// all dominating root tests must precede no policy store
+			c.NotAfter(f, "the root-policy check", first, "store to te.Policies", polSt)
 		}
 		c.Clause("R5", "C07.4")
 		for _, st := range polSt {
@@ -121,12 +124,21 @@ func runC07(c *eng.Ctx, thorough bool) {
 		for _, rp := range eng.Calls(f, `vault\.\(\*TokenStore\)\.resolveTokenPolicies$`) {
 			a := rp.Common().Args
 			c.Prov(f, "parent given to resolveTokenPolicies", rp, a[5], `^call:vault\.\(\*TokenStore\)\.Lookup#0$`)
-			c.Prov(f, "isSudo given to resolveTokenPolicies", rp, a[6], `SudoPrivilege$`)
+			if c07gFwd(a[6], c07gIsSudoCall, 0) {
+				c.OK(f, "prov{isSudo given to resolveTokenPolicies}", rp.Pos(), "the result of SudoPrivilege (directly or through a forwarding closure)")
+			} else {
+				c.Prov(f, "isSudo given to resolveTokenPolicies", rp, a[6], `SudoPrivilege$`)
+			}
 		}
-		for _, sp := range eng.Calls(f, `SudoPrivilege$`) {
-			a := sp.Common().Args
-			c.Prov(f, "token whose sudo capability is tested", sp, a[len(a)-1], `^field:req\.ClientToken$`)
+		nSudo := 0
+		for _, g := range append([]*ssa.Function{f}, eng.Closures(f)...) {
+			for _, sp := range eng.Calls(g, `SudoPrivilege$`) {
+				nSudo++
+				a := sp.Common().Args
+				c.Prov(f, "token whose sudo capability is tested", sp, a[len(a)-1], `^field:\^?req\.ClientToken$`)
+			}
 		}
+		c.Floor(f, "SudoPrivilege calls (in the function or its closures)", nSudo, 1)
 		// ---- C07.6 TTLs
 		c.Clause("R2", "C07.6")
 		ttlZero := eng.Guard{Desc: "[&te.TTL == 0]=false (nearest to ts.create)", Edges: eng.Nearest(f, eng.CondEdges(f, `^&te\.TTL == 0$`, false), create)}
@@ -346,8 +358,12 @@ func runC07(c *eng.Ctx, thorough bool) {
 			c.Cut(f, "Core.RegisterAuth", reg, eng.Guard{Desc: "exit edge of the loop over token+identity policies", Edges: loopDone}, nil)
 			for _, es := range []struct {
 				d, p string
-			}{{"login policy is root", `== "root"$`}, {"login policy is non-assignable", `^slices\.Contains\[.*\]\(\)$`}} {
+			}{{"login policy is root", `== "root"$`}, {"login policy is non-assignable", ""}} {
 				e := eng.CondEdges(f, es.p, true)
+				if es.p == "" {
+					// slices.Contains(policy.NonAssignablePolicies, …), directly or through a forwarding closure
+					e = c07gFwdCondEdges(f, c07gIsNonAssignableTest, true)
+				}
 				if len(e) == 0 {
 					c.Violation(f, "refusal{"+es.d+"}", f.Pos(), "the login path no longer tests: "+es.d, nil)
 					continue
@@ -368,7 +384,7 @@ func runC07(c *eng.Ctx, thorough bool) {
 						continue
 					}
 					s := eng.ExprDeep(cl.Call.Args[0])
-					if strings.Contains(s, "TokenPolicies") && strings.Contains(s, "fetchEntityAndDerivedPolicies(") && strings.Contains(s, "[ns.ID]") {
+					if c07gIsTokenPolicies(f, cl.Call.Args[0]) && strings.Contains(s, "fetchEntityAndDerivedPolicies(") && strings.Contains(s, "[ns.ID]") {
 						// and it is the one ranged over
 						found = true
 						c.OK(f, "policies checked = token ∪ identity", cl.Pos(), s)
